@@ -40,6 +40,7 @@ type PropConfig struct {
 	Bounded     []Bounded  `json:"bounded"`
 	Mutants     []string   `json:"mutants"`
 	MinObligations int     `json:"min_obligations"`
+	Static      []string   `json:"static"` // static companions: "global-writes"
 }
 
 type KnownFinding struct {
@@ -375,6 +376,43 @@ func (pr *propResult) finish(eng *Engine, cfg *PropConfig, tier string, seed int
 			violationLines = append(violationLines, fmt.Sprintf("VIOLATION property=%s replay=%s bounded=%s", id, rp, b.Name))
 		}
 	}
+	// 4. static companions
+	var staticEv []map[string]any
+	for _, sc := range cfg.Static {
+		if sc != "global-writes" {
+			continue
+		}
+		fs, nf, ng := eng.scanGlobalWrites()
+		ev := map[string]any{"name": "global-writes", "label": "static analysis (flow-insensitive points-to-global taint over go/ssa; not counted as proved)",
+			"functions_scanned": nf, "package_level_variables": ng, "findings": len(fs),
+			"statement": "outside the package initialisers no function of the module stores to a package-level variable, to a component of one, through a pointer derived from one, or updates/appends to/deletes from a map or slice loaded from one"}
+		staticEv = append(staticEv, ev)
+		if nf == 0 || ng == 0 {
+			violations++
+			rp := filepath.Join(replayDir, "static-global-writes-vacuous.json")
+			writeJSON(rp, map[string]any{"property": id, "obligation": "static.global-write.vacuity", "functions_scanned": nf, "package_level_variables": ng})
+			violationLines = append(violationLines, fmt.Sprintf("VIOLATION property=%s replay=%s obligation=static.global-write.vacuity no-failing-input-found", id, rp))
+		}
+		for _, f := range fs {
+			n := f.Name()
+			isKnown := false
+			for _, k := range known {
+				if k.Property == id && k.Status == "open" && k.Obligation == n {
+					fmt.Printf("KNOWN-FINDING: property=%s %s witness=%s %s\n", id, k.Obligation, k.Witness, k.What)
+					isKnown = true
+				}
+			}
+			if isKnown {
+				continue
+			}
+			violations++
+			rp := filepath.Join(replayDir, sanitizeFile(n)+".json")
+			writeJSON(rp, map[string]any{"property": id, "obligation": n, "function": f.Func, "code_at": f.Pos, "package_level_variable": f.Global, "what": f.What,
+				"meaning": "a function other than a package initialiser may write memory owned by a package-level variable: concurrent callers would share that write",
+				"failing_input": nil})
+			violationLines = append(violationLines, fmt.Sprintf("VIOLATION property=%s replay=%s obligation=%s at=%s no-failing-input-found", id, rp, n, f.Pos))
+		}
+	}
 	// vacuity floor
 	if total < cfg.MinObligations && len(degraded) == 0 {
 		violations++
@@ -465,6 +503,7 @@ func (pr *propResult) finish(eng *Engine, cfg *PropConfig, tier string, seed int
 		"per_obligation": perObl,
 		"samples": samples,
 		"bounded": boundedEv,
+		"static": staticEv,
 		"degraded": degraded,
 		"evaluations": total + covers, "distinct_nontrivial": len(order),
 		"rule": "one SMT query per (obligation name, control-flow path); an obligation name is Function.kind.label; all are generated from the SSA of /repo's working tree on this run",
